@@ -34,7 +34,7 @@ func isResumeStack(t types.Type) bool {
 // c02Keys: keys of ResumeStack literals are absolute child indices.
 func c02Keys(c *core.Check) {
 	p := c.Prog
-	r := c.Rule("R1", "resume keys are absolute child indices: in every ResumeStack built by the layout code, a key that depends on the index of a loop over children[skip:] (or over any re-sliced list) contains the slice's lower bound with the same coefficient, so that the continuation starts at the child the fragment stopped at", 20)
+	r := c.Rule("R1", "resume keys are absolute child indices: in every ResumeStack built by the layout code, a key that depends on the index of a loop over children[skip:] (or over any re-sliced list) contains the slice's lower bound with the same coefficient, so that the continuation starts at the child the fragment stopped at", 35)
 	for _, fn := range p.FuncsOfPkg("html/layout") {
 		fn := fn
 		// the lower bounds of the slices each phi indexes
@@ -222,7 +222,7 @@ func resumeResults(sig *types.Signature) map[int]int {
 // c02Discarded: a fragment whose continuation is thrown away must not have been cut.
 func c02Discarded(c *core.Check) {
 	p := c.Prog
-	r := c.Rule("R2", "no continuation is thrown away: a call of a fragmenting layout function (one that returns a resume point) whose resume point is never read passes bottomSpace = −∞, so that the callee is never asked to stop at the page bottom (measurement passes); a call that lays content out against the real page bottom and drops the resume point loses everything after the break", 8)
+	r := c.Rule("R2", "no continuation is thrown away: a call of a fragmenting layout function (one that returns a resume point) whose resume point is never read passes bottomSpace = −∞, so that the callee is never asked to stop at the page bottom (measurement passes); a call that lays content out against the real page bottom and drops the resume point loses everything after the break", 9)
 	for _, fn := range p.FuncsOfPkg("html/layout") {
 		fn := fn
 		core.Instrs(fn, func(in ssa.Instruction) {
@@ -501,7 +501,7 @@ func ptrLin(v ssa.Value, depth int) (core.Lin, bool) {
 // c02Forward: a continuation is never moved forward past content that was not laid out.
 func c02Forward(c *core.Check) {
 	p := c.Prog
-	r := c.Rule("R4", "a resume point is never replaced by a later one: no ResumeStack is built with a key K on a path guarded by `k < K`, k being the key of the resume point already computed (the children between k and K, and the rest of child k, would never be laid out)", 1)
+	r := c.Rule("R4", "a resume point is never replaced by a later one: no ResumeStack is built with a key K on a path guarded by `k < K`, k being the key of the resume point already computed (the children between k and K, and the rest of child k, would never be laid out)", 2)
 	n := 0
 	for _, fn := range p.FuncsOfPkg("html/layout") {
 		fn := fn
